@@ -24,6 +24,8 @@ def tobool(x):
 class Violation(Exception):
     def __init__(s, kind, msg=''): Exception.__init__(s, '%s: %s' % (kind, msg)); s.kind = kind; s.msg = msg
 class Unsupported(Exception): pass
+class FieldWordOp(Unsupported):
+    """a bit-level operation met a field word (F mode): the enclosing function needs a contract (see autosum.py)"""
 class LoopCut(Exception):
     """control returned to a cut loop header; carries the back-edge phi values"""
     def __init__(s, vals): Exception.__init__(s, 'loop cut'); s.vals = vals
@@ -63,6 +65,7 @@ class FV:
     def __init__(s, cls, rep=None, ub=None): s.cls = cls; s.rep = rep; s.ub = ub     # ub: known upper bound of the word's integer value (None: 2^64-1)
     def __repr__(s): return 'FV(%s)' % (s.cls,)
 NULL = Ptr(None, 0)
+AUTOSUM = [None]   # the autosum module once F mode is in use (set by fmode.install_scalar)
 FALG = [None]      # field algebra of the current F-mode run (set by fmode.install_scalar)
 
 def split64(c):
@@ -74,7 +77,7 @@ def join64(lo, hi):
     if lo is POISON or hi is POISON: return POISON
     if isinstance(lo, Half) or isinstance(hi, Half):
         if isinstance(lo, Half) and isinstance(hi, Half) and lo.v is hi.v and lo.i == 0 and hi.i == 1: return lo.v
-        raise Unsupported('field word halves recombined inconsistently')
+        raise FieldWordOp('field word halves recombined inconsistently')
     if is_c(lo) and is_c(hi): return lo | (hi << 32)
     return z3.Concat(tobv(hi, 32), tobv(lo, 32))
 
@@ -105,7 +108,7 @@ def binop(op, a, b, w):
             if ua is not None and ub_ is not None and ua + ub_ < (1 << 64):
                 ca = a.cls if isinstance(a, FV) else a; cb = b.cls if isinstance(b, FV) else b
                 return FV(FALG[0].add(ca, cb), ub=ua + ub_)
-        raise Unsupported('bit-level op %s on a field word' % op)
+        raise FieldWordOp('bit-level op %s on a field word' % op)
     if is_c(a) and is_c(b):
         m = mask(w)
         if op == 'add': return (a + b) & m
@@ -153,7 +156,7 @@ def icmp(pred, a, b, w):
     if is_c(a) and is_c(b):
         return int({'eq': a == b, 'ne': a != b, 'ult': a < b, 'ule': a <= b, 'ugt': a > b, 'uge': a >= b,
                     'slt': sg(a) < sg(b), 'sle': sg(a) <= sg(b), 'sgt': sg(a) > sg(b), 'sge': sg(a) >= sg(b)}[pred])
-    if isinstance(a, (FV, Half)) or isinstance(b, (FV, Half)): raise Unsupported('comparison of a field word')
+    if isinstance(a, (FV, Half)) or isinstance(b, (FV, Half)): raise FieldWordOp('comparison of a field word')
     A = tobv(a, w); B = tobv(b, w)
     return {'eq': lambda: A == B, 'ne': lambda: A != B, 'ult': lambda: z3.ULT(A, B), 'ule': lambda: z3.ULE(A, B), 'ugt': lambda: z3.UGT(A, B), 'uge': lambda: z3.UGE(A, B),
             'slt': lambda: A < B, 'sle': lambda: A <= B, 'sgt': lambda: A > B, 'sge': lambda: A >= B}[pred]()
@@ -263,7 +266,7 @@ class World:
         def addo(off, i, sz):
             if is_c(i) and is_c(off): return off + sx(i) * sz
             if is_c(i): return off + bvv((sx(i) * sz) & mask(64), 64)
-            if isinstance(i, (FV, Half)): raise Unsupported('field word used as an index')
+            if isinstance(i, (FV, Half)): raise FieldWordOp('field word used as an index')
             if i.size() < 64: i = z3.SignExt(64 - i.size(), i)
             return tobv(off, 64) + i * bvv(sz, 64)
         first = True
@@ -313,7 +316,7 @@ class World:
             raise Violation('uninit-read', 'read of never-written cell %d of %s' % (c, p.obj.name))
         if isinstance(v, (Ptr, FnPtr)): return [v]
         if isinstance(v, float): return [v]
-        if isinstance(v, FV): raise Unsupported('sub-word read of a field word')
+        if isinstance(v, FV): raise FieldWordOp('sub-word read of a field word')
         if is_c(v): return [(v >> sh) & mask(n * 8)]
         return [z3.simplify(z3.Extract(sh + n * 8 - 1, sh, v))]
     def uread(s, o, off):
@@ -378,6 +381,14 @@ class World:
         raise Unsupported('flat %r' % t)
     def store(s, p, t, v):
         n = s.sizeof(t); rt = s.rty(t)
+        if rt.kind == 'int' and rt.bits > 64 and rt.bits % 64 == 0:
+            # wide integers (i128) occupy consecutive 8-byte cells, least significant first
+            k = rt.bits // 64
+            if v is POISON: parts = [POISON] * k
+            elif is_c(v): parts = [(v >> (64 * i)) & mask(64) for i in range(k)]
+            elif isinstance(v, (FV, Half)): raise FieldWordOp('wide store of a field word')
+            else: parts = [z3.simplify(z3.Extract(64 * i + 63, 64 * i, v)) for i in range(k)]
+            s.store_bytes(p, n, parts); return
         if rt.kind in ('int', 'ptr', 'double', 'float'): s.store_bytes(p, n, [v])
         else:
             fl = s.flat(rt, v)
@@ -395,6 +406,11 @@ class World:
             if isinstance(c, (Ptr, FnPtr)): return c
             if c is POISON: return POISON
             raise Unsupported('integer loaded as pointer')
+        if rt.kind == 'int' and rt.bits > 64 and rt.bits % 64 == 0:
+            if any(c is POISON for c in cells): return POISON
+            if any(isinstance(c, (FV, Half)) for c in cells): raise FieldWordOp('wide load of field words')
+            if all(is_c(c) for c in cells): return sum(c << (64 * i) for i, c in enumerate(cells))
+            return z3.Concat(*[tobv(c, 64) for c in reversed(cells)])
         if rt.kind in ('int', 'double', 'float'):
             c = cells[0]
             if rt.kind == 'int' and isinstance(c, Ptr) and c.obj is None and c.off == 0: return 0
@@ -454,7 +470,7 @@ class Interp:
         s.dpos += 1; s.pc.append(c if d else z3.Not(c)); return d
     def concretize(s, v, w=64, what=''):
         if is_c(v): return v
-        if isinstance(v, (FV, Half)): raise Unsupported('field word where a concrete value is needed (%s)' % what)
+        if isinstance(v, (FV, Half)): raise FieldWordOp('field word where a concrete value is needed (%s)' % what)
         v = z3.simplify(tobv(v, w))
         if z3.is_bv_value(v): return v.as_long()
         if s.dpos < len(s.decisions): d = s.decisions[s.dpos]
@@ -485,9 +501,17 @@ class Interp:
             if r is not NotImplemented: return r
         f = w.funcs.get(name)
         if f is None: raise Unsupported('no body for ' + name)
+        if AUTOSUM[0] is not None and getattr(w, 'alg', None) is not None and name in AUTOSUM[0].AUTO:
+            r = AUTOSUM[0].apply(s, name, f, args)
+            if r is not NotImplemented: return r
         s.depth += 1
         if s.depth > 400: raise Unsupported('call depth')
         try: return s.run(f, args)
+        except FieldWordOp as e:
+            # no contract for a function that manipulates the bits of a field word: try to infer and prove one, then restart the obligation
+            if AUTOSUM[0] is not None and getattr(w, 'alg', None) is not None and not getattr(w, 'no_autosum', False):
+                if AUTOSUM[0].attempt(s, name, f, args, e): raise AUTOSUM[0].RestartObligation(name)
+            raise
         finally: s.depth -= 1
     def intrinsic(s, name, a):
         w = s.w
@@ -501,7 +525,7 @@ class Interp:
         m_ = re.match(r'@llvm\.([us])(add|sub|mul)\.with\.overflow\.i(\d+)$', name)
         if m_ and not isinstance(a[0], list):
             sg_, op_, wd = m_.group(1), m_.group(2), int(m_.group(3)); x, y = a
-            if isinstance(x, (FV, Half)) or isinstance(y, (FV, Half)): raise Unsupported('%s on a field word' % name)
+            if isinstance(x, (FV, Half)) or isinstance(y, (FV, Half)): raise FieldWordOp('%s on a field word' % name)
             if is_c(x) and is_c(y):
                 if sg_ == 's':
                     sx = x - (1 << wd) if x >> (wd - 1) else x; sy = y - (1 << wd) if y >> (wd - 1) else y
@@ -522,13 +546,13 @@ class Interp:
         if m_:
             # lane i of the result is y[i] if the top bit of mask lane i is set, else x[i] (lane words keep their integer bits through the fp bitcasts)
             x, y, mk = a; wd = (256 if (name.endswith('.256') or 'avx2.pblendvb' in name) else 128) // len(x)
-            if any(isinstance(v, (FV, Half)) for v in mk): raise Unsupported('blendv mask is a field word')
+            if any(isinstance(v, (FV, Half)) for v in mk): raise FieldWordOp('blendv mask is a field word')
             return [s.sel(icmp('slt', mi, 0, wd), yi, xi, I(wd)) for xi, yi, mi in zip(x, y, mk)]
         m_ = re.match(r'@llvm\.x86\.(?:avx|avx2|sse2|sse)\.(?:movmsk\.p[ds]|pmovmskb)', name)
         if m_:
             x = a[0]; wd = (256 if (name.endswith('.256') or 'avx2' in name) else 128) // len(x); r = 0
             for i, xi in enumerate(x):
-                if isinstance(xi, (FV, Half)): raise Unsupported('movmsk on a field word')
+                if isinstance(xi, (FV, Half)): raise FieldWordOp('movmsk on a field word')
                 b = icmp('slt', xi, 0, wd)
                 bit = (int(bool(b)) << i) if is_c(b) else z3.If(tobool(b), z3.BitVecVal(1 << i, 32), z3.BitVecVal(0, 32))
                 r = (r | bit) if (is_c(r) and is_c(bit)) else (tobv(r, 32) | tobv(bit, 32))
@@ -609,7 +633,7 @@ class Interp:
         def cast1(v, sw, dw):
             if v is POISON: return v
             if isinstance(v, (FV, Half)):
-                raise Unsupported('%s of a field word' % op)
+                raise FieldWordOp('%s of a field word' % op)
             if op == 'zext':
                 if is_c(v): return v
                 if z3.is_bool(v): return z3.If(v, bvv(1, dw), bvv(0, dw))
